@@ -75,7 +75,8 @@ impl AlignHash for core::ops::RangeFull {
 
 impl MaxSizeOf for core::ops::RangeFull {
     fn max_size_of() -> usize {
-        0
+        // the alignment of a zero-sized type: zero is not a valid alignment unit
+        1
     }
 }
 
